@@ -48,7 +48,7 @@ Diffs(e, s, x) ==
 (***************************************************************************)
 (* per-property acceptance of one single-step case                          *)
 (***************************************************************************)
-SemProps == {"C01", "C02", "C03", "C04", "C05", "C06", "C08", "C14", "C07"}
+SemProps == {"C01", "C02", "C03", "C04", "C05", "C06", "C08", "C09", "C14", "C07"}
 CaseOK(e, s, x) ==
   CASE PROP \in SemProps ->
          IF x.pw THEN TRUE      \* port DDR/DR written: peripheral semantics are H8Port's (C16), not judged here
